@@ -1,3 +1,4 @@
 from .core import (SymInt, SymBool, E, Ctx, ConcreteCtx, explore, set_width,
                    EngineUnsupported, PathEnd)
 from .runner import Case
+from . import vloop
